@@ -151,7 +151,7 @@ fn hist_json(h: &[Param]) -> Value {
 }
 
 fn to_inputs(list: &[Pfx]) -> Vec<IdpfInput> {
-    list.iter().map(|p| IdpfInput::from_bools(p)).collect()
+    list.iter().map(|p| crate::common::to_input(p)).collect()
 }
 
 fn lib_prefixes(p: &Poplar1AggregationParam) -> Param {
